@@ -17,7 +17,7 @@ import sys
 import time
 
 VERIF = os.path.dirname(os.path.dirname(os.path.abspath(__file__)))
-SCRATCH = "/dev/shm/emusim_mut"
+SCRATCH = f"/dev/shm/emusim_mut_{os.getpid()}"  # per process: two invocations must not remove each other's copies
 ALL = ["C03", "C14", "C15", "C17", "C18", "C19", "C21", "C26", "C27", "C34"]
 
 
